@@ -174,6 +174,11 @@ func (m *mavenExtension) init(input string) error {
 			return fmt.Errorf("invalid version %#q", input)
 		}
 		if cat == versionSeparator {
+			if first {
+				// An empty leading component is 0, as it is everywhere else:
+				// ".1" is "0.1". The first element never has a separator.
+				elements = append(elements, mavenElement{str: "0"})
+			}
 			e.sep = str[0]
 			str = str[1:]
 			if str == "" {
